@@ -3,6 +3,8 @@
    one integer verdict code per line (0 = the extracted judge accepted the record).
    Everything that decides anything lives in the extracted module Cmr_model; this file only
    converts decimal tokens to the extracted Z type and back. *)
+type str = string   (* OCaml's string: the extracted module defines Coq's `string` inductive under the same name *)
+module Str_ = String
 open Cmr_model
 
 let rec pos_of_int n =
@@ -14,14 +16,14 @@ let z_of_int n =
   if n = 0 then Z0 else if n > 0 then Zpos (pos_of_int n) else Zneg (pos_of_int (- n))
 
 (* decimal token of arbitrary length, via the extracted Z arithmetic for long tokens *)
-let z_of_token (s : string) : z =
-  if String.length s <= 17 then z_of_int (int_of_string s)
+let z_of_token (s : str) : z =
+  if Str_.length s <= 17 then z_of_int (int_of_string s)
   else begin
     let neg = s.[0] = '-' in
     let start = if neg || s.[0] = '+' then 1 else 0 in
     let acc = ref Z0 in
     let ten = z_of_int 10 in
-    for i = start to String.length s - 1 do
+    for i = start to Str_.length s - 1 do
       let d = Char.code s.[i] - 48 in
       if d < 0 || d > 9 then failwith ("bad token " ^ s);
       acc := Z.add (Z.mul !acc ten) (z_of_int d)
@@ -39,11 +41,11 @@ let int_of_z = function
   | Zpos p -> int_of_pos p
   | Zneg p -> - (int_of_pos p)
 
-let split_line (l : string) : z list =
-  let toks = String.split_on_char ' ' l in
+let split_line (l : str) : z list =
+  let toks = Str_.split_on_char ' ' l in
   List.filter_map (fun t -> if t = "" then None else Some (z_of_token t)) toks
 
-let table : (string * (z list -> z)) list = [
+let table : (str * (z list -> z)) list = [
   ("ctu_compl", judge_ctu_compl);
   ("ctu_test", judge_ctu_test);
   ("pivot", judge_pivot);
@@ -72,6 +74,7 @@ let table : (string * (z list -> z)) list = [
   ("climat", judge_climat);
   ("cligraph", judge_cligraph);
   ("leaf", judge_leaf);
+  ("cliverdict", judge_cliverdict);
 ]
 
 let () =
@@ -80,7 +83,7 @@ let () =
   try
     while true do
       let l = input_line stdin in
-      if String.length l > 0 then begin
+      if Str_.length l > 0 then begin
         let code = int_of_z (f (split_line l)) in
         print_string (string_of_int code); print_char '\n'
       end
